@@ -51,6 +51,8 @@ func init() {
 					}
 				}
 				cells = append(cells, cp(conf, "impostor", "1"))
+				cells = append(cells, cp(conf, "impostor", "nocert"))
+				cells = append(cells, cp(conf, "impostor", "shortcert"))
 			}
 			if tier == "selftest" {
 				return seeded("C12", seed, 4, func(i int, sd uint64) *k.Spec {
@@ -201,7 +203,7 @@ func runC12(r *h.Run) {
 		protoName = "grpc+mux"
 	}
 	ctx := fmt.Sprintf("proto=%s path=%s cred=%s when=%s", protoName, path, cred, when)
-	if r.Spec.P("impostor", "") == "1" {
+	if r.Spec.P("impostor", "") != "" {
 		runC12Impostor(r, c)
 		return
 	}
@@ -385,7 +387,8 @@ func clAddr(cl *plugin.Client) (string, bool) {
 
 // runC12Impostor: the plugin announces certificate A and serves with B.
 func runC12Impostor(r *h.Run, c h.Conf) {
-	ctx := "impostor proto=" + c.String()
+	mode := r.Spec.P("impostor", "1")
+	ctx := "impostor=" + mode + " proto=" + c.String()
 	certA, _ := h.SelfSignedPEM()
 	certB, keyB := h.SelfSignedPEM()
 	sh := plugins.NewShared("impostor")
@@ -398,12 +401,20 @@ func runC12Impostor(r *h.Run, c h.Conf) {
 		if err != nil {
 			return
 		}
-		tl := tls.NewListener(ln, &tls.Config{Certificates: []tls.Certificate{pair}, ClientAuth: tls.RequestClientCert, MinVersion: tls.VersionTLS12})
+		var tl net.Listener = tls.NewListener(ln, &tls.Config{Certificates: []tls.Certificate{pair}, ClientAuth: tls.RequestClientCert, MinVersion: tls.VersionTLS12})
 		proto := "netrpc"
 		if c.Proto == "grpc" {
 			proto = "grpc"
 		}
-		fmt.Fprintf(k.Cur().Fd1, "1|1|unix|/tmp/impostor.sock|%s|%s\n", proto, h.PEMToRawB64(certA))
+		announced := h.PEMToRawB64(certA)
+		switch mode {
+		case "nocert":
+			// announces no certificate at all and serves in clear
+			announced, tl = "", ln
+		case "shortcert":
+			announced, tl = "legacy-extra-data", ln
+		}
+		fmt.Fprintf(k.Cur().Fd1, "1|1|unix|/tmp/impostor.sock|%s|%s\n", proto, announced)
 		if c.Proto == "grpc" {
 			s := grpc.NewServer()
 			s.RegisterService(plugins.CmdServiceDesc(), plugins.NewGRPCCmdServer(sh))
